@@ -27,7 +27,8 @@ MkFK(quote, esc, escset, always) == [quote |-> quote, esc |-> esc, escset |-> es
 FieldConfigs == <<
   MkFK(96, 92, {92, 32}, TRUE),       \* `name` always quoted; backslash and space escaped
   MkFK(96, 92, {92, 32}, FALSE),      \* quoted unless ^\w+$
-  MkFK(NONE, 92, {92, 32, 46}, FALSE) \* never quoted; backslash, space and dot escaped
+  MkFK(NONE, 92, {92, 32, 46}, FALSE), \* never quoted; backslash, space and dot escaped
+  MkFK(96, 92, {92, 96, 46}, TRUE)     \* the escape pattern ALSO matches the quote character (escaped once, not twice)
 >>
 FieldAlpha == {97, 32, 96, 92, 46, 95}
 =============================================================================
